@@ -596,8 +596,8 @@ package spine
 //@   let SKI = msg.DeviceRemote.Ski()
 //@   define ARM = r.Feature.role == model.RoleTypeServer && msg.DeviceRemote != nil && msg.RequestHeader != nil && msg.RequestHeader.MsgCounter != nil
 //@   ensures[C01,C12] no-response: respSame && sendfails == old(sendfails)
-//@   ensures[C12] armed: old(WINV(r) && ARM) ==> PEND(r, SKI, *msg.RequestHeader.MsgCounter)
-//@   ensures[C12] others-untouched: old(WINV(r)) ==> forall s string, m model.MsgCounterType :: !(old(ARM) && s == SKI && m == *msg.RequestHeader.MsgCounter) ==> (PEND(r, s, m) <==> old(PEND(r, s, m))) && TALLY(r, s, m) == old(TALLY(r, s, m))
+//@   ensures[C01,C12] armed: old(WINV(r) && ARM) ==> PEND(r, SKI, *msg.RequestHeader.MsgCounter)
+//@   ensures[C01,C12] others-untouched: old(WINV(r)) ==> forall s string, m model.MsgCounterType :: !(old(ARM) && s == SKI && m == *msg.RequestHeader.MsgCounter) ==> (PEND(r, s, m) <==> old(PEND(r, s, m))) && TALLY(r, s, m) == old(TALLY(r, s, m))
 //@   ensures[C12] inv-kept: old(WINV(r)) ==> WINV(r)
 //@   ensures[C12] not-applied: wapplied == old(wapplied)
 //@   modifies map(gomap[string]map[model.MsgCounterType]*time.Timer), map(gomap[model.MsgCounterType]*time.Timer), timers, held
@@ -1334,6 +1334,29 @@ package spine
 //@   ensures[C20] nothing-declared-noop: res2(LocalFeatureDataCopyOfType, 0, 1) != nil ==> setn == old(setn)
 //@   ensures[C20] atomic: acquisitions(muxUseCaseData) == 1 && locksUnchanged()
 //@   modifies held, wm, world, @SETLOG, @PUBLISH, outmisc, cells(model.NodeManagementUseCaseDataType), cells(model.UseCaseInformationDataType), cells(model.UseCaseSupportType), cells(model.FeatureAddressType)
+
+// ---------------------------------------------------------------------------------------
+// teardown of one connection (C10): afterwards the peer cannot be resolved by SKI, every other peer still can; both
+// registries are asked to forget exactly this device; every local feature is asked to forget the approvals of exactly
+// this SKI and the client-side references to exactly this device address, the two requests in pairs
+//@ func (*DeviceLocal).RemoveRemoteDevice
+//@   requires r != nil && r.subscriptionManager != nil && r.bindingManager != nil
+//@   let RD = r.remoteDevices[ski]
+//@   define KNOWN = has(r.remoteDevices, ski) && r.remoteDevices[ski] != nil
+//@   ensures[C10] unknown-noop: !old(KNOWN) ==> cwn == old(cwn) && cdn == old(cdn) && evn == old(evn) && forall s string :: has(r.remoteDevices, s) == old(has(r.remoteDevices, s)) && r.remoteDevices[s] == old(r.remoteDevices[s])
+//@   ensures[C10] unresolvable: old(KNOWN) ==> !has(r.remoteDevices, ski)
+//@   ensures[C10] others-resolvable: forall s string :: s != ski ==> has(r.remoteDevices, s) == old(has(r.remoteDevices, s)) && r.remoteDevices[s] == old(r.remoteDevices[s])
+//@   ensures[C10] registries-asked: old(KNOWN) ==> arg(RemoveSubscriptionsForDevice, 1) == old(RD) && arg(RemoveBindingsForDevice, 1) == old(RD)
+//@   ensures[C10] approvals-of-this-peer-only: forall k int :: old(cwn) <= k && k < cwn ==> cwski[k] == ski
+//@   ensures[C10] references-of-this-peer-only: old(KNOWN) ==> arg(Address, 0) == old(RD) && forall k int :: old(cdn) <= k && k < cdn ==> cdaddr[k] != nil && cdaddr[k].Device == res(Address, 0)
+//@   ensures[C10] paired: cwn - old(cwn) == cdn - old(cdn)
+//@   modifies map(gomap[string]api.DeviceRemoteInterface), @PUBLISH, world, held, wm, cwn, cwski, cdn, cdaddr, timers, new(model.DeviceAddressType)
+//@   loop 0 invariant o-approvals: cwn >= pre(cwn) && forall k int :: old(cwn) <= k && k < cwn ==> cwski[k] == ski
+//@   loop 0 invariant o-references: forall k int :: old(cdn) <= k && k < cdn ==> cdaddr[k] == remoteDeviceAddress
+//@   loop 0 invariant o-paired: cwn - old(cwn) == cdn - old(cdn)
+//@   loop 1 invariant i-approvals: cwn >= pre(cwn) && forall k int :: old(cwn) <= k && k < cwn ==> cwski[k] == ski
+//@   loop 1 invariant i-references: forall k int :: old(cdn) <= k && k < cdn ==> cdaddr[k] == remoteDeviceAddress
+//@   loop 1 invariant i-paired: cwn - old(cwn) == cdn - old(cdn)
 
 // ---------------------------------------------------------------------------------------
 // local data changes are announced exactly once (C08): a successful SetData / UpdateData asks the device to notify the
